@@ -162,6 +162,38 @@ def irrelevant_options(rng):
     return kw
 
 
+# damage to pytask's own state files between builds. What the unchanged code does (probed, accepted exactly):
+#   .pytask/file_hashes.json truncated / empty / not UTF-8 / JSON of another shape: tolerated, the build is as without the damage;
+#   .pytask removed, or an EMPTY pytask.sqlite3: nothing is recorded any more, every task is due again;
+#   a TRUNCATED (corrupt) pytask.sqlite3: the database cannot be opened — configuration phase fails, exit code 2, no reports, for
+#   every build until the file is repaired.
+STATE_FAULTS = ("cache_trunc", "cache_empty", "cache_garbage", "cache_list", "cache_dict", "cache_scalar", "rm_state_dir", "db_empty", "db_trunc")
+
+
+def apply_state_fault(root, kind):
+    """returns True if something was damaged (False: the file did not exist yet)"""
+    d = root / ".pytask"
+    if kind == "rm_state_dir":
+        if not d.exists():
+            return False
+        shutil.rmtree(d)
+        return True
+    if kind.startswith("cache_"):
+        f = d / "file_hashes.json"
+        if not f.exists():
+            return False
+        data = f.read_bytes()
+        f.write_bytes({"cache_trunc": data[:max(1, len(data) // 2)], "cache_empty": b"", "cache_garbage": b"\x00\xff\xfenot json",
+                       "cache_list": b"[1, 2]", "cache_dict": b'{"a": {"b": 1}}', "cache_scalar": b'{"a": 5}'}[kind])
+        return True
+    f = d / "pytask.sqlite3"
+    if not f.exists():
+        return False
+    data = f.read_bytes()
+    f.write_bytes(b"" if kind == "db_empty" else data[:max(100, len(data) // 4)])
+    return True
+
+
 def limit_source(rng, cfg):
     """where the failure limit comes from: kwarg max_failures / kwarg stop_after_first_failure / config file / both (same value)"""
     n = cfg.get("maxfail")
@@ -295,6 +327,12 @@ def gen_case(rng, shape=None):
         steps.append(["build", dict(cfg), kw_extra, irrelevant_options(rng)])
     if rng.random() < 0.5:
         steps.append(["build", dict(cfg), kw_extra, irrelevant_options(rng)])
+    if rng.random() < 0.3:
+        # pytask's OWN state damaged between two builds of the project (an interrupted write, a cleaned checkout, …)
+        steps.append(["state", rng.choice(STATE_FAULTS)])
+        steps.append(["build", dict(cfg), kw_extra, irrelevant_options(rng)])
+        if rng.random() < 0.4:
+            steps.append(["build", dict(cfg), kw_extra, irrelevant_options(rng)])
     return {"tag": shape, "spec": spec, "steps": steps, "faults": faults}
 
 
@@ -354,6 +392,9 @@ def run_case(server, case):
                 project.write_file(project.node_path(root, step[1]), str(step[2]), clock)
                 recs.append({"step": step})
                 continue
+            if step[0] == "state":
+                recs.append({"step": step, "applied": apply_state_fault(root, step[1])})
+                continue
             cfg, kw_extra = step[1], step[2]
             project.clear_log(root)
             project.write_config_file(root, cfg)
@@ -388,10 +429,16 @@ def oracle(case, recs):
     spec = case["spec"]
     byid = {t["id"]: t for t in spec["tasks"]}
     deldep_tasks = {t["id"] for t in spec["tasks"] if t.get("beh") == "deldep"}
-    phase = expected_phase(case)
+    phase0 = expected_phase(case)
+    db_broken = False
     for rec in recs:
+        if rec["step"][0] == "state" and rec["step"][1] == "db_trunc" and rec.get("applied"):
+            db_broken = True
+        if rec["step"][0] == "state" and rec["step"][1] in ("rm_state_dir", "db_empty") and rec.get("applied"):
+            db_broken = False
         if rec["step"][0] != "build":
             continue
+        phase = "config" if db_broken else phase0
         obs, cfg, pre, post = rec["obs"], rec["cfg"], rec["pre"], rec["post"]
         # (1) build() returned
         if obs.get("died") or obs.get("raised"):
@@ -531,6 +578,7 @@ def replay_in_model(drv, case, recs):
         drv.ask(ln)
     drv.ask(project.model_fs_line(spec, {int(k): v for k, v in spec["inputs"].items()}))
     drv.ask("engine.cleardb")
+    db_broken = False
     for i, rec in enumerate(recs):
         step = rec["step"]
         if step[0] == "delete":
@@ -539,8 +587,18 @@ def replay_in_model(drv, case, recs):
         if step[0] == "write":
             drv.ask(f"engine.fs set={step[1]}:{step[2]} del=")
             continue
+        if step[0] == "state":
+            if rec.get("applied") and step[1] in ("rm_state_dir", "db_empty"):
+                drv.ask("engine.cleardb")           # nothing is recorded any more
+            if rec.get("applied") and step[1] == "db_trunc":
+                db_broken = True
+            if rec.get("applied") and step[1] in ("rm_state_dir", "db_empty"):
+                db_broken = False
+            continue                                # the hash cache is not part of the model: damage there changes nothing
         obs, cfg = rec["obs"], dict(rec["cfg"])
         conf, ph, imp = model_faults(case, step)
+        if db_broken:
+            conf = "Exception"                      # the database cannot be opened: configuration fails
         if rec.get("f29"):
             break    # F29 pattern (an oracle violation): the model has no behaviour "body deletes a dependency" in the unrepaired code
         if "dag:ValueError" in ph:
@@ -706,6 +764,9 @@ def run_cases(ctx, cs):
         ctx.dist[f"shape={case['tag'].split('-')[0]}"] += 1
         for f in case["faults"]:
             ctx.dist["fault=" + f["kind"]] += 1
+        for r_ in recs:
+            if r_["step"][0] == "state":
+                ctx.dist["state=" + r_["step"][1] + ("" if r_.get("applied") else "(n/a)")] += 1
         for b in builds:
             ctx.dist[f"exit={b['obs'].get('exit')}"] += 1
             if b["obs"].get("raised"):
